@@ -54,3 +54,18 @@ func VerifAgeTagsTreeHolders(d time.Duration) int {
 	}
 	return n
 }
+
+// VerifFlushDirtyTagsTrees is one round of timeBasedTagsTreeFlush (every TAGS_TREE_FLUSH_SLEEP_DURATION seconds on a
+// server): every tags tree that changed since its last flush is written to its holder's directory.
+func VerifFlushDirtyTagsTrees() error {
+	for _, tth := range GetAllTagsTreeHolders() {
+		for tagKey, tt := range tth.allTrees {
+			if tt.dirty {
+				if err := tt.flushSingleTagsTree(tagKey, tth.tagstreeBase); err != nil {
+					return err
+				}
+			}
+		}
+	}
+	return nil
+}
